@@ -1,6 +1,7 @@
 #!/bin/bash
 # run every stored seed against the check of its own property (scratch worktree, /repo untouched); one line per seed
 cd "$(dirname "$0")/.."
+/venv/bin/python vf.py setup > /dev/null 2>&1
 for d in seeded/*/; do
   n=$(basename "$d")
   /venv/bin/python tools/seedcheck.py run "$n" 2>&1 | grep -v -i -e conda -e numba | tail -1 | cut -c1-220
